@@ -379,6 +379,11 @@ impl Monitor for C16 {
                         if (m_mid.arrived as u128) < sum_in(two) {
                             out.push(viol("vault_received_less_than_needed", ev.idx, format!("two-hop intermediate: pool two received {} but its leg consumed {}", m_mid.arrived, sum_in(two))));
                         }
+                        // exact-in, leg two not stopped by its price limit: the leg is priced on exactly what arrived
+                        let two_full = a.is_input && two.post.sqrt_price != crate::mon::swaps::effective_limit(a.limit_two, a.a_to_b_two);
+                        if two_full && (m_mid.arrived as u128) != sum_in(two) {
+                            out.push(viol("intermediate_amount_mismatch", ev.idx, format!("two-hop exact-in: pool two received {} of the intermediate token (after a transfer fee of {}) but its leg was priced on {}", m_mid.arrived, m_mid.withheld, sum_in(two))));
+                        }
                     }
                     k.withdrawal(&mint_out, &m_out, sum_out(two), if a.is_input { a.threshold } else { 0 }, "output", &mut out, cov);
                     // on a copy: the same exact-in route with a minimum one above what just arrived - whatever the program
